@@ -155,7 +155,7 @@ def main():
                      "the shipped grammar", "_process_query (CLI normalisation)", "N > 40 in relative dates; identifiers outside the menus"])
         for nm, text, why in dropped:
             rep.note("dropped from the bound (not well-formed for the real parser): %s %r: %s" % (nm, text, why))
-        T = 110 if tier == "quick" else 300
+        T = 150 if tier == "quick" else 300
         env = {"XH_TIER": tier, "XH_SEED": seed}
         conds = [xh.Cond(path, fname, timeout=T, env=env,
                          meta={"variant": specs[i].name, "family": specs[i].name.split("-")[0],
